@@ -383,16 +383,22 @@ func (p *parser) _recover() bool {
 
 	for {
 		save := p._stack
+		firstErr := errSym
 
 		for len(p._stack) >= 1 {
 			if p._canShiftError() {
 				p._qla = p._la
 				p._qlasym = p._lasym
 				p._la = ERROR
-				p._lasym = errSym
+				p._lasym = firstErr
 				return true
 			}
 
+			// An ERROR symbol discarded here was never delivered to an action:
+			// keep reporting the earliest error of the discarded stretch.
+			if e, ok := p._stack.Peek(0).Sym.(Error); ok {
+				firstErr = e
+			}
 			p._stack.Pop(1)
 		}
 
